@@ -917,6 +917,10 @@ impl SortedWritesTable {
                                         unsafe {
                                             let _was_stale = read_handle.set_stale_shared(occ.get().row);
                                             debug_assert!(!_was_stale);
+                                            // `cur_row` holds the incoming row; the table
+                                            // must point at the merged row instead. This
+                                            // shard has exclusive access to `cur_row`.
+                                            read_handle.write_row_shared(cur_row, &scratch);
                                         }
                                         occ.get_mut().row = cur_row;
                                         changed = true;
